@@ -346,6 +346,7 @@ func (s *skel) lean() string {
 
 type asyncCtx struct {
 	recv     string // receiver name
+	valAlias string // a local declared as `x := ego.val`
 	function string // the callback parameter
 	wg       string
 	mutex    string
@@ -364,6 +365,46 @@ func (c *asyncCtx) isCount(e ast.Expr) bool {
 		return true
 	}
 	return false
+}
+
+// `<count> == 0` / `len(xs) == 0` / `ego.Empty()`
+func (c *asyncCtx) isEmptyTest(e ast.Expr) bool {
+	if b, ok := unparen(e).(*ast.BinaryExpr); ok && b.Op == token.EQL && src(b.Y) == "0" {
+		if c.isCount(b.X) || c.valAlias != "" && src(b.X) == "len("+c.valAlias+")" {
+			return true
+		}
+	}
+	switch src(e) {
+	case c.recv + ".Empty()", c.recv + ".Ego().Empty()":
+		return true
+	}
+	return false
+}
+
+// does the method return the result container (Map) rather than the receiver (ForEach)?
+func (c *asyncCtx) returnsResult(m *method) bool {
+	return strings.HasPrefix(m.decl.Name.Name, "Map")
+}
+
+// countedLoop recognises `for i := 0; i < len(xs); i++` over the element slice
+func (c *asyncCtx) countedLoop(st *ast.ForStmt) (idx, xs string, ok bool) {
+	init, ok1 := st.Init.(*ast.AssignStmt)
+	cond, ok2 := st.Cond.(*ast.BinaryExpr)
+	post, ok3 := st.Post.(*ast.IncDecStmt)
+	if !ok1 || !ok2 || !ok3 || init.Tok != token.DEFINE || len(init.Lhs) != 1 || len(init.Rhs) != 1 || src(init.Rhs[0]) != "0" ||
+		cond.Op != token.LSS || post.Tok != token.INC {
+		return "", "", false
+	}
+	idx = src(init.Lhs[0])
+	if src(cond.X) != idx || src(post.X) != idx {
+		return "", "", false
+	}
+	for _, cand := range []string{c.recv + ".val", c.valAlias} {
+		if cand != "" && src(cond.Y) == "len("+cand+")" {
+			return idx, cand, true
+		}
+	}
+	return "", "", false
 }
 
 // map one statement of the goroutine body; idx / val are the expressions that denote the index
@@ -392,7 +433,7 @@ func (c *asyncCtx) bodyStep(st ast.Stmt, group, idx, val string) string {
 			return ".lock"
 		case x == c.mutex && c.mutex != "" && m == "Unlock" && len(args) == 0:
 			return ".unlock"
-		case (x == group || x == c.wg) && x != "" && m == "Done" && len(args) == 0:
+		case (x == group || x == c.wg || x == "(&"+c.wg+")") && x != "" && m == "Done" && len(args) == 0:
 			return ".done"
 		case x == c.result && c.result != "" && (m == "Replace" || m == "Set") && len(args) == 2 &&
 			src(args[0]) == idx && isCallback(args[1]):
@@ -427,23 +468,41 @@ func extractAsync(m *method) *skel {
 		switch st := st.(type) {
 		case *ast.DeclStmt:
 			gd, ok := st.Decl.(*ast.GenDecl)
-			if ok && gd.Tok == token.VAR && len(gd.Specs) == 1 {
-				vs := gd.Specs[0].(*ast.ValueSpec)
-				if len(vs.Names) == 1 && len(vs.Values) == 0 && vs.Type != nil {
-					if isSyncType(vs.Type, "WaitGroup") && c.wg == "" {
-						c.wg = vs.Names[0].Name
-						continue
-					}
-					if isSyncType(vs.Type, "Mutex") && c.mutex == "" {
-						c.mutex = vs.Names[0].Name
-						continue
+			recognised := ok && gd.Tok == token.VAR && len(gd.Specs) > 0
+			if recognised {
+				// `var wg sync.WaitGroup`, `var mutex sync.Mutex`, or both in one `var ( … )` block
+				for _, sp := range gd.Specs {
+					vs := sp.(*ast.ValueSpec)
+					if !(len(vs.Names) == 1 && len(vs.Values) == 0 && vs.Type != nil &&
+						(isSyncType(vs.Type, "WaitGroup") && c.wg == "" || isSyncType(vs.Type, "Mutex") && c.mutex == "")) {
+						recognised = false
 					}
 				}
+			}
+			if recognised {
+				for _, sp := range gd.Specs {
+					vs := sp.(*ast.ValueSpec)
+					if isSyncType(vs.Type, "WaitGroup") && c.wg == "" {
+						c.wg = vs.Names[0].Name
+					} else if isSyncType(vs.Type, "Mutex") && c.mutex == "" {
+						c.mutex = vs.Names[0].Name
+					} else {
+						recognised = false
+					}
+				}
+			}
+			if recognised {
+				continue
 			}
 			s.extra = append(s.extra, src(st))
 		case *ast.AssignStmt:
 			if st.Tok == token.DEFINE && len(st.Lhs) == 1 && len(st.Rhs) == 1 {
 				name, _ := st.Lhs[0].(*ast.Ident)
+				if name != nil && src(st.Rhs[0]) == c.recv+".val" && c.valAlias == "" && !seenLoop {
+					// `items := ego.val`: a second name for the element slice (never assigned again: checked below)
+					c.valAlias = name.Name
+					continue
+				}
 				switch rhs := st.Rhs[0].(type) {
 				case *ast.FuncLit:
 					if name != nil && c.stepName == "" && !seenLoop {
@@ -494,7 +553,7 @@ func extractAsync(m *method) *skel {
 			}
 			s.extra = append(s.extra, src(st))
 		case *ast.RangeStmt:
-			if seenLoop || seenWait || src(st.X) != c.recv+".val" || st.Tok != token.DEFINE ||
+			if seenLoop || seenWait || !(src(st.X) == c.recv+".val" || c.valAlias != "" && src(st.X) == c.valAlias) || st.Tok != token.DEFINE ||
 				st.Key == nil || st.Value == nil {
 				s.extra = append(s.extra, src(st))
 				continue
@@ -523,6 +582,44 @@ func extractAsync(m *method) *skel {
 					s.extra = append(s.extra, src(inner))
 				}
 			}
+		case *ast.IfStmt:
+			// `if <count> == 0 { return <what the method returns for an empty container> }` before the loop: for n = 0 the
+			// ordinary path adds 0 to the group, spawns nothing, waits for nothing and returns the receiver (ForEach) or a
+			// fresh empty result (Map) — the guard returns the same, so the skeleton is unchanged
+			if !seenLoop && st.Init == nil && st.Else == nil && len(st.Body.List) == 1 && c.isEmptyTest(st.Cond) {
+				if r, ok := st.Body.List[0].(*ast.ReturnStmt); ok && len(r.Results) == 1 {
+					rs := src(r.Results[0])
+					fresh := rs == "NewObject()" && m.recvType == "object" || (rs == "NewList()" || rs == "NewListOf(nil, 0)") && m.recvType == "list"
+					if c.result != "" && isIdent(r.Results[0], c.result) {
+						fresh = true // the (still empty) result container itself
+					}
+					if rs == c.recv+".Ego()" && !c.returnsResult(m) || fresh && c.returnsResult(m) {
+						continue
+					}
+				}
+			}
+			s.extra = append(s.extra, src(st))
+		case *ast.ForStmt:
+			// `for i := 0; i < len(xs); i++ { go … xs[i] … }` with xs = ego.val or its alias
+			idx, xs, ok := c.countedLoop(st)
+			if seenLoop || seenWait || !ok {
+				s.extra = append(s.extra, src(st))
+				continue
+			}
+			seenLoop = true
+			for _, inner := range st.Body.List {
+				switch inner := inner.(type) {
+				case *ast.GoStmt:
+					if seenGo {
+						s.extra = append(s.extra, src(inner))
+						continue
+					}
+					seenGo = true
+					c.goStmt(s, inner, idx, xs+"["+idx+"]")
+				default:
+					s.extra = append(s.extra, src(inner))
+				}
+			}
 		case *ast.ReturnStmt:
 			seenReturn = true
 			s.waitBeforeReturn = seenWait
@@ -533,6 +630,23 @@ func extractAsync(m *method) *skel {
 			}
 		default:
 			s.extra = append(s.extra, src(st))
+		}
+	}
+	if c.valAlias != "" {
+		// the alias of the element slice must stay one: no second assignment, no append through it
+		writes := 0
+		ast.Inspect(m.decl.Body, func(n ast.Node) bool {
+			if as, ok := n.(*ast.AssignStmt); ok {
+				for _, l := range as.Lhs {
+					if strings.HasPrefix(src(l), c.valAlias+"[") || isIdent(l, c.valAlias) {
+						writes++
+					}
+				}
+			}
+			return true
+		})
+		if writes != 1 {
+			s.extra = append(s.extra, "the alias "+c.valAlias+" of the element slice is written")
 		}
 	}
 	if !seenLoop {
@@ -585,16 +699,36 @@ func (c *asyncCtx) goStmt(s *skel, g *ast.GoStmt, key, value string) {
 		s.args = "captured"
 		idx, val = key, value+".getVal()"
 	} else if len(params) == 3 && len(call.Args) == 3 && group == params[0] &&
-		src(call.Args[0]) == "&"+c.wg && c.wg != "" &&
+		src(unparen(call.Args[0])) == "&"+c.wg && c.wg != "" &&
 		src(call.Args[1]) == key && src(call.Args[2]) == value+".getVal()" {
 		// arguments evaluated by main at spawn time
 		s.args = "byValue"
 		idx, val = params[1], params[2]
+	} else if len(params) == 2 && len(call.Args) == 2 && group == "" &&
+		src(call.Args[0]) == key && src(call.Args[1]) == value+".getVal()" {
+		// the same with the wait group captured by the closure instead of passed as a pointer (the group is one
+		// variable of the method either way); index and value are still evaluated by main at spawn time
+		s.args = "byValue"
+		idx, val = params[0], params[1]
 	} else {
 		s.extra = append(s.extra, src(g))
 		return
 	}
-	for _, st := range body {
+	for i := 0; i < len(body); i++ {
+		st := body[i]
+		// `v := function(idx, val)` directly followed by `result.Set(idx, v)` / `result.Replace(idx, v)` is the call-and-write step
+		if as, ok := st.(*ast.AssignStmt); ok && as.Tok == token.DEFINE && len(as.Lhs) == 1 && len(as.Rhs) == 1 && i+1 < len(body) {
+			if cc, ok := as.Rhs[0].(*ast.CallExpr); ok && isIdent(cc.Fun, c.function) && len(cc.Args) == 2 && src(cc.Args[0]) == idx && src(cc.Args[1]) == val {
+				if es, ok := body[i+1].(*ast.ExprStmt); ok {
+					if x, mm, args, ok := methodCall(es.X); ok && x == c.result && c.result != "" && (mm == "Replace" || mm == "Set") && len(args) == 2 &&
+						src(args[0]) == idx && src(args[1]) == src(as.Lhs[0]) {
+						s.body = append(s.body, ".callWrite")
+						i++
+						continue
+					}
+				}
+			}
+		}
 		s.body = append(s.body, c.bodyStep(st, group, idx, val))
 	}
 }
